@@ -314,6 +314,19 @@ func enumerate(c *ev.Ctx, m *model, implemented []uint16) (*gen, []string) {
 			}
 		}
 	}
+	// Part 7b: post-quantum hybrid groups (TLS 1.3 only; a client whose first group is a hybrid sends TWO key shares,
+	// the hybrid one and its classical component) as members of either list, in every order relative to the classical groups.
+	hybrid := [][]uint16{{4588}, {4588, curveX25519}, {curveX25519, 4588}, {4588, curveP256}, {4587, curveP256}, {curveP256, 4587}, {4589, curveP384}, {4588, 4587, 4589}}
+	classic := [][]uint16{nil, {curveX25519}, {curveP256}, {curveP384}, {curveP256, curveX25519}}
+	both := append(append([][]uint16{}, hybrid...), classic...)
+	for ci, cl := range both {
+		for si, sl := range both {
+			if ci >= len(hybrid) && si >= len(hybrid) {
+				continue // classical x classical: part 7
+			}
+			g.add("7b:hybrid-group lists x lists at TLS 1.3", Cfg{CMin: V10, CMax: V13, SMin: V10, SMax: V13, Key: "p256", CCurves: cl, SCurves: sl})
+		}
+	}
 	// Part 8: ALPN lists x ALPN lists x tickets/resumption x version (two connections each).
 	plists := [][]string{nil, {"h2"}, {"h2", "http/1.1"}, {"http/1.1", "h2"}, {"x"}}
 	for _, cp := range plists {
@@ -375,6 +388,7 @@ func main() {
 		c.Set("suites", info)
 		c.Rule("a configuration = (client [min,max], server [min,max], server key type(s): one chain or several chains in Config.Certificates order, served directly or by a GetCertificate callback, client/server CipherSuites, ForceSuites, PreferServerCipherSuites, client/server CurvePreferences, client/server NextProtos, tickets mode, ExtendedMasterSecret, MITM downgrade target); distinct = distinct canonical configuration; non-trivial = the server produced a ServerHello")
 		c.Assume(
+			"post-quantum hybrid groups (part 7b, TLS 1.3): a zcrypto client whose top CurvePreferences entry is a hybrid also offers the classical component as a key share (documented in handshake_client.go) even when that group is not in its list; the statement does not speak about groups, so the client's usable groups are its list plus that fallback, and a handshake completing on it is an outcome (it deviates from RFC 8446 4.2.8, recorded in DESIGN.md); transcripts with a hybrid key share are not reproducible under a fixed Config.Rand (ML-KEM draws from the system source) and are exempt from the determinism rule",
 			"reference negotiation written from RFC 8446 §4.1.3/§4.2.1, RFC 5246, RFC 7301 §3.2, RFC 5077, the IANA suite names and the tls.Config doc comments",
 			"default curve set is {X25519,P-256,P-384,P-521}; default pre-1.3 suite set is tls.CipherSuites() minus the TLS 1.3 suites; the default lists are a configuration value like any other: their order is the one documented next to the suite table (AES-GCM hardware: the four ECDHE AES-GCM suites, the two ECDHE ChaCha20 suites, then the table: ECDHE CBC, RSA AES-GCM, RSA CBC, 3DES; without the hardware ChaCha20 first; TLS 1.3: AES-128-GCM, ChaCha20, AES-256-GCM resp. ChaCha20 first), transcribed in defaults.go and never read from zcrypto; a client with CipherSuites=nil must offer exactly that list in that order (TLS 1.2-only suites left out below TLS 1.2)",
 			"exact suite prediction TLS<=1.2: explicit list of the preferring side; server default list under PreferServerCipherSuites=true: the documented order with the AES-GCM suites moved behind the neighbouring ChaCha20 suites iff the ClientHello's first suite is not an AES-GCM suite, the relative order of everything else preserved (both orders accepted when that first suite is an AES-GCM suite without ECDHE or is outside the exported lists); client default list under client preference: the order of the ClientHello on the wire; no verdict on an AES-GCM-vs-ChaCha20 choice under client preference on a machine without (or with unknown) AES-GCM hardware; with several chains the rule is judged among the suites usable with the chain presented",
@@ -460,6 +474,10 @@ func main() {
 			c.Transitions.Add(int64(2 * recs))
 			if same {
 				c.Traces.Add(2)
+			} else if anyHybrid(cfg.CCurves, cfg.SCurves) {
+				// ML-KEM key generation and encapsulation draw from the system's random source, not from Config.Rand:
+				// transcripts with a hybrid key share are not reproducible, and the statement does not promise it
+				hists[w]["hybrid group in a list: transcripts not reproducible under a fixed Config.Rand (not judged)"]++
 			} else {
 				c.Violation("determinism: two executions of the same configuration produced different wire transcripts",
 					witness{cfg, 0, "transcript digests differ", a[0].summary() + " || " + b[0].summary()})
